@@ -186,6 +186,8 @@ func TestVerif_C18_Conservation(t *testing.T) {
 			opts.Profile = "status"
 		case 1:
 			opts.Profile = "pay"
+		case 2, 3:
+			opts.Profile = "money"
 		}
 		c18Run(t, rt, vk, opts)
 	})
